@@ -37,6 +37,39 @@ DELIVERABLES - create the directory {wt}/seed_out and put there, numbered 1, 2, 
   {wt}/seed_out/defect_N.py     run as: cd {wt} && PYTHONPATH={wt}/src:{wt} /venv/bin/python seed_out/defect_N.py   (exits 1 on the unmodified tree)
   {wt}/seed_out/defect_N.md     5-10 lines: the input class, what happens, which line(s) of the library cause it, and the smallest change you think would repair it
 Quality matters more than quantity: only deliver defects you have reproduced, and say clearly when something is merely suspicious. Finish with a short report listing the defects, most serious first. If you find none after a thorough search, say so and describe what you tried.""")
+elif mode == 'hard4':
+    print(f"""You are helping to evaluate a verification tool by writing realistic, hard-to-notice defects ("seeded changes").
+
+{common}
+CONTEXT: the last ~60 commits of this worktree (`git log -60 --stat`, `git log -60 -p -- src`) are maintenance fixes that hardened the library against corner cases (guards, normalisations, conversions, refusals, helper functions). Read the ones that touch the code this property depends on.
+YOUR TASK: produce THREE different, independent changes to the library source under {wt}/src/emsarray (call them A, B and C), each of which
+  1. BREAKS the property above (for some input / configuration / history the statement becomes false),
+  2. still imports/compiles and keeps every currently passing test of the existing suite passing (unchanged test files),
+  3. needs something SPECIFIC to manifest; ordinary use of the sample datasets must not expose it.
+At least TWO of the three must be made in code that those recent commits added or rewrote, and must NOT be a verbatim revert of a commit. Good shapes: a guard that quietly stops covering one of its cases (a kind dropped from a membership test, `>` for `>=`, a condition tested on the wrong variable); a normalisation applied at one of two call sites that must agree; a constant or regular expression changed so that it still handles the common spelling but not a rare one; a new helper bypassed by one caller; two statements reordered so that a value is read after it was overwritten; a well-meant simplification or performance shortcut that is only equivalent for the common case. The third may be anywhere in the code the property depends on. 1-15 changed lines each, looking like an honest mistake or a clean-up, with a comment or naming that makes it look deliberate.
+For each change write a demonstration: a standalone Python program that exits with status 0 when the property holds and 1 (printing what went wrong) when violated; it must exit 0 on the UNMODIFIED tree and 1 with the change applied. Locate any data files relative to the current working directory (the worktree root), never via __file__.
+
+DELIVERABLES - create the directory {wt}/seed_out and put there, for X in (A, B, C):
+  {wt}/seed_out/patch_X.diff   output of `git diff -- src` with ONLY change X applied (each patch applies alone to the unmodified tree with `git apply`)
+  {wt}/seed_out/demo_X.py       run as: cd {wt} && PYTHONPATH={wt}/src:{wt} /venv/bin/python seed_out/demo_X.py
+  {wt}/seed_out/notes_X.md      3-8 lines: what the change is, why it breaks the property, what it needs to manifest, what you ran (suite before/after, demo exit codes)
+Leave the worktree with NO change applied at the end (git checkout -- src), keep seed_out/. Finish with a short report. If you cannot find three good changes deliver as many as you can.""")
+elif mode == 'benign4':
+    print(f"""You are helping to evaluate a verification tool by writing BEHAVIOUR-PRESERVING refactorings: edits a maintainer might make that change how the code is written but not what it does. The tool under evaluation must stay silent on them.
+
+{common}
+CONTEXT: the last ~60 commits of this worktree (`git log -60 --stat`, `git log -60 -p -- src`) are maintenance fixes that added guards, normalisations, conversions, refusals and helper functions. Read the ones that touch the code this property depends on.
+YOUR TASK: produce FOUR different, independent, behaviour-preserving refactorings (call them A, B, C and D) under {wt}/src/emsarray. At least THREE of them must restructure code that those recent commits added or rewrote (if fewer than three such places matter to this property, use the functions the property is anchored in). Each must
+  1. leave the behaviour exactly the same for every input (the property above, and every other behaviour, still holds; same results, same exceptions and messages),
+  2. compile and keep every currently passing test passing,
+  3. be a substantial but realistic maintenance edit, each of a DIFFERENT kind, for example: extracting a guard or a conversion into a private helper (or inlining one); merging two guards into one condition or splitting one into two; turning an if/else into a conditional expression, an early `continue` / `return`, or a lookup table; a comprehension <-> an explicit loop; replacing an idiom by an equivalent one (`x.size > 0` <-> `len(x) != 0`, `numpy.count_nonzero(m)` <-> `m.sum()`, `a in 'iub'` <-> `a in ('i', 'u', 'b')`, `re.sub` with a compiled module-level pattern, `not (a or b)` <-> `not a and not b`); renaming locals and reordering independent statements; moving a constant to module level. 5-30 changed lines each.
+For each refactoring write an equivalence demonstration: a standalone Python program that exercises the refactored functions on several inputs (including the awkward ones the recent commits were about) and compares results with expected values computed independently or recorded from the unmodified tree (embed the expected values in the script); it must exit 0 both on the unmodified tree and with the refactoring applied. Locate any data files relative to the current working directory (the worktree root), never via __file__.
+
+DELIVERABLES - create the directory {wt}/seed_out and put there, for X in (A, B, C, D):
+  {wt}/seed_out/patch_X.diff   output of `git diff -- src` with ONLY refactoring X applied (each patch applies alone to the unmodified tree with `git apply`)
+  {wt}/seed_out/demo_X.py       run as: cd {wt} && PYTHONPATH={wt}/src:{wt} /venv/bin/python seed_out/demo_X.py   (exit 0 with and without the patch)
+  {wt}/seed_out/notes_X.md      2-5 lines: what kind of refactoring it is, why behaviour is unchanged, what you ran
+Leave the worktree with NO change applied at the end (git checkout -- src), keep seed_out/. Finish with a short report.""")
 elif mode == 'hard3':
     print(f"""You are helping to evaluate a verification tool by writing realistic, hard-to-notice defects ("seeded changes").
 
